@@ -939,7 +939,7 @@ func c29RunFree(r *verifkit.Run, w *verifkit.Worker, idx int) {
 	nUsers := 2 + rnd.IntN(4)
 	loops := 20 + rnd.IntN(60)
 	var held, maxCap, lowTo atomic.Int64 // lowTo > 0 once the lowering has returned
-	var grants, releases, cancels, finished, pendingCancels, maxHeld, waitedSeen, everLowered atomic.Int64
+	var grants, releases, cancels, finished, pendingCancels, maxHeld, waitedSeen, everLowered, lowStarted atomic.Int64
 	maxCap.Store(cap0)
 	type seedT struct{ a, b uint64 }
 	seeds := make([]seedT, G)
@@ -979,8 +979,9 @@ func c29RunFree(r *verifkit.Run, w *verifkit.Worker, idx int) {
 				return
 			}
 			c := int64(1 + cr.IntN(int(cap0-1)))
+			lowStarted.Store(1) // classification only: from here on the capacity may already be the lower one
 			q.AdjustCapacity(uint64(c))
-			lowTo.Store(c)
+			lowTo.Store(c) // bound: calls issued after this point started after the lowering had returned
 		case "raise":
 			c := cap0
 			for k := 0; k < 3; k++ {
@@ -1092,10 +1093,10 @@ func c29RunFree(r *verifkit.Run, w *verifkit.Worker, idx int) {
 							witness(map[string]any{"holders": hnow, "lowered_to": after}))
 					} else if hnow > cap0 {
 						key := c29KeyOverCap
-						if lowTo.Load() > 0 {
-							key = c29KeyLowered // more holders than the capacity ever allowed, seen after the capacity had been lowered
+						if lowStarted.Load() > 0 {
+							key = c29KeyLowered // more holders than the capacity ever allowed, seen once the lowering call had been issued
 						}
-						r.Violation(key, fmt.Sprintf("free-running (lower): %d holders, capacity never above %d (lowered to %d by now)", hnow, cap0, lowTo.Load()), witness(map[string]any{"holders": hnow}))
+						r.Violation(key, fmt.Sprintf("free-running (lower): %d holders, capacity never above %d (lowering issued: %v, returned with %d)", hnow, cap0, lowStarted.Load() > 0, lowTo.Load()), witness(map[string]any{"holders": hnow}))
 					}
 				default:
 					if m2 := maxCap.Load(); hnow > m2 {
@@ -1147,8 +1148,8 @@ wait:
 				}
 			}
 		}
-		if time.Since(start) > 300*time.Second {
-			r.Inconclusive(fmt.Sprintf("C29 queue free-running epoch %d/%d (%s) did not finish in 300 s", w.Index, idx, kind))
+		if time.Since(start) > 150*time.Second {
+			r.Inconclusive(fmt.Sprintf("C29 queue free-running epoch %d/%d (%s) did not finish in 150 s", w.Index, idx, kind))
 			deadlocked = true
 			break wait
 		}
